@@ -28,9 +28,10 @@ TECHNIQUE = ('property-based testing (Hypothesis) plus an exhaustive '
              'calibration against hand-written reference build files')
 RULE = ('Path components over printable ASCII incl. space and \' " $ # % & ( '
         ') * ? [ ] : , @ ! + ~ { } ; = | < > ^ ` (no / or \\, no leading '
-        'one-letter-plus-colon, not . or ..), length 1-6, in eleven roles '
+        'one-letter-plus-colon, not . or ..), length 1-6, in twelve roles '
         '(source, header, exe/build_step/copy_file output, output directory, '
-        'submodule directory, find_files hit, walked directory, include '
+        'submodule directory, find_files hit, walked directory with and '
+        'without a hit, include '
         'directory given per target and through global_options) x {make, '
         'ninja}.  Names the reference build file cannot make work are '
         'excluded and counted.  Non-trivial: the name has a character '
@@ -47,7 +48,7 @@ LEVEL_NOTE = ('Trusted: GNU Make 4.3, the reference Ninja evaluator (not '
 ASSUMPTIONS = ['the header role additionally excludes " (C include syntax)']
 
 ROLES = ['source', 'header', 'exe', 'step', 'copy', 'outdir', 'submodule',
-         'findfile', 'finddir', 'incdir', 'gincdir']
+         'findfile', 'finddir', 'walkdir', 'incdir', 'gincdir']
 SAFE = set(string.ascii_letters + string.digits + '_.-')
 ALPHABET = [c for c in map(chr, range(32, 127)) if c not in '/\\']
 
@@ -103,7 +104,7 @@ class Proto:
         return sandbox.run_backend(self.backend, self.bld, self.env,
                                    list(targets))
 
-    def run(self, products, touched, rebuilt, fail):
+    def run(self, products, touched, rebuilt, fail, walked=None):
         """products: files that must exist after the build; touched: the
         prerequisite to touch; rebuilt: files whose mtime must then change."""
         self.clock = sandbox.Clock(self.tmp)
@@ -126,6 +127,23 @@ class Proto:
             if mtime(p) != before[p]:
                 fail('noop', '{} was rebuilt although nothing changed'.format(
                     os.path.relpath(p, self.bld)))
+        if walked:
+            # a walked directory changes without changing what was found:
+            # the build file checks, keeps itself, and must stay usable
+            t = self.clock.tick(self.tmp)
+            sandbox.write_file(os.path.join(walked, 'unrelated.note'), 'n\n')
+            os.utime(walked, ns=(t, t))
+            for attempt in (1, 2):
+                bw = self.build()
+                if bw.rc != 0:
+                    fail('walk', 'build #{} after an unrelated file '
+                         'appeared in the walked directory failed: {}'.format(
+                             attempt, (bw.err + bw.out).strip()[-500:]))
+            for p in rebuilt:
+                if mtime(p) != before[p]:
+                    fail('walk', '{} was rebuilt although only an unrelated '
+                         'file appeared in a walked directory'.format(
+                             os.path.relpath(p, self.bld)))
         t = self.clock.tick(self.tmp)
         os.utime(touched, ns=(t, t))
         b3 = self.build()
@@ -213,6 +231,17 @@ def render(role, n, src):
           "executable('prog', ['main.c'] + find_files('tree/**/*.c'))\n")
         obj = ('B', 'prog.int/tree/' + n + '/f.o')
         return [obj, ('B', 'prog')], ('S', 'tree/' + n + '/f.c'), [obj]
+    if role == 'walkdir':
+        # a directory that find_files walks without finding anything in it:
+        # its name only occurs in the record of walked directories
+        w(os.path.join(src, 'tree', n, 'readme.txt'), 'r\n')
+        w(os.path.join(src, 'tree', 'f.c'), 'int f(void){return 0;}\n')
+        w(os.path.join(src, 'main.c'), 'int f(void);\nint main(void)'
+          '{return f();}\n')
+        w(os.path.join(src, 'build.bfg'),
+          "executable('prog', ['main.c'] + find_files('tree/**/*.c'))\n")
+        obj = ('B', 'prog.int/tree/f.o')
+        return [obj, ('B', 'prog')], ('S', 'tree/f.c'), [obj]
     if role in ('incdir', 'gincdir'):
         # an include directory: a command argument of every compile step (per
         # target or through the global flags) and part of a depfile entry
@@ -415,6 +444,13 @@ def key_for(backend, role, step, n):
     return '{}/{}/{}'.format(backend, role, ch)
 
 
+def depfile_role(backend, role):
+    """Does the name pass through a depfile read by the tool's depfile
+    parser?  (The record of walked directories is a Makefile fragment for
+    Make but a depfile for Ninja.)"""
+    return role in DEPFILE_ROLES or (role == 'walkdir' and backend == 'ninja')
+
+
 def check_name(rec, backend, role, n, case):
     if role == 'header' and '"' in n:
         rec.classes['excluded:c-include-syntax'] += 1
@@ -429,9 +465,9 @@ def check_name(rec, backend, role, n, case):
         rec.excluded()
         return
     unrep = sp and (not representable(backend, n) or (
-        role in DEPFILE_ROLES and '"' not in n and
+        depfile_role(backend, role) and '"' not in n and
         not representable(backend, n, 'depfile')))
-    if role in DEPFILE_ROLES and '"' in n and sp:
+    if depfile_role(backend, role) and '"' in n and sp:
         unrep = True                    # cannot even be #included
     if unrep:
         rec.classes['unrepresentable:' + backend] += 1
@@ -461,8 +497,13 @@ def check_name(rec, backend, role, n, case):
                               backend=backend)
         if r.rc != 0:
             fail('configure', 'configure failed: ' + r.err.strip()[-500:])
+        walked = None
+        if role in ('finddir', 'walkdir'):
+            walked = os.path.join(proto.src, 'tree', n)
+        elif role == 'findfile':
+            walked = os.path.join(proto.src, 'tree')
         proto.run([absolute(p) for p in products], absolute(touched),
-                  [absolute(p) for p in rebuilt], fail)
+                  [absolute(p) for p in rebuilt], fail, walked=walked)
 
 
 def prop_names(rec):
@@ -496,7 +537,7 @@ def sweep_cases():
     return out
 
 
-CORE_NAMES = ['a b', 'a$b', 'a#b', 'a b/c d']
+CORE_NAMES = ['a b', 'a$b', 'a#b', 'ab:c', 'a%b', 'a b/c d']
 
 
 def core_cases():
@@ -504,7 +545,7 @@ def core_cases():
     for backend in ('make', 'ninja'):
         for role in ROLES:
             for n in CORE_NAMES:
-                if '/' in n and role not in ('outdir', 'submodule',
+                if '/' in n and role not in ('outdir', 'submodule', 'walkdir',
                                              'finddir', 'incdir', 'gincdir'):
                     continue
                 out.append({'backend': backend, 'role': role, 'name': n})
